@@ -28,6 +28,7 @@ type Engine struct {
 	Thorough         bool
 	buildMu          sync.Mutex
 	built            map[*ssa.Package]bool
+	builtFast        sync.Map
 	extCache         sync.Map // *ssa.Function -> externalFn or nil marker
 	dummyFn          *ssa.Function
 	SkipInitPkgs     map[string]bool
@@ -92,6 +93,9 @@ func (e *Engine) buildPkg(p *ssa.Package) {
 	if p == nil {
 		return
 	}
+	if _, ok := e.builtFast.Load(p); ok {
+		return
+	}
 	e.buildMu.Lock()
 	defer e.buildMu.Unlock()
 	if e.built[p] {
@@ -99,6 +103,7 @@ func (e *Engine) buildPkg(p *ssa.Package) {
 	}
 	p.Build()
 	e.built[p] = true
+	e.builtFast.Store(p, true)
 }
 
 // Package returns the loaded SSA package with the given import path.
